@@ -22,8 +22,10 @@ import common
 from session import Bytes, coq_sx, coq_bytes
 
 COQ_TARGETS = ['props/C07.vo']
-TRUSTED = ['netaddr text<->integer conversion of IPv4/IPv6/MAC addresses (address text is canonicalised to '
-           '(version, integer) by the harness; the model works on integers)',
+TRUSTED = ['netaddr text<->integer conversion of IPv4/IPv6 addresses (address text is canonicalised to '
+           '(version, integer) by the harness; the model works on integers); EVPN MAC text is NOT trusted: the '
+           'model works on the characters (lib/Dec.v split / int(g, 16) / show_mac) and is compared with '
+           'construct_mac and str(netaddr.EUI(int)) by the correspondence run',
            'harness rendering of route distinguishers ("a:b" text <-> (kind, a, b)) and flowspec operator '
            'text ("=1|>=2" <-> [(flags, value)])']
 ASSUMPTIONS = ['model/YMp.v, YPrefix6.v, YLabel.v, YVpn.v, YLu.v, YFlow4.v, YEvpn.v are hand-written and tied to '
@@ -213,6 +215,9 @@ def run_family(ctx, fam, per_shard=120):
                 pairs.append((fam.coq_parse(case, octets), pc, case, 'parse'))
         if octets is not None:
             vlen[len(octets)] = vlen.get(len(octets), 0) + 1
+        if case.get('out_of_range'):
+            # not a value of the property's domain: model and implementation are compared, nothing else
+            continue
         if case.get('unencodable'):
             # out of range by size (no octets can carry it): construction has to fail
             if verdict is not None and verdict[0] == 'construct-exc':
@@ -235,6 +240,9 @@ def run_family(ctx, fam, per_shard=120):
                                                                        fam.describe(case)),
                      'input': {'family': fam.name, 'kind': case['kind'], 'value': fam.impl_value(case)},
                      'observed': obs if stage == 'differs' else stage, 'known': kid})
+    if fam.modelled and hasattr(fam, 'extra_pairs'):
+        # decoder-only inputs (hand-made octet strings): (coq term, implementation canonical, case, what)
+        pairs += fam.extra_pairs(ctx)
     mism = []
     if ctx.coq_ok and pairs:
         # a shard is closed at per_shard cases or SHARD_OCTETS of text, whichever comes first (coqc needs
@@ -261,7 +269,8 @@ def run_family(ctx, fam, per_shard=120):
             for i in idx:
                 term, impl, case, what = pairs[owners[k][i]]
                 mism.append({'what': 'model and implementation differ on %s %s %s' % (fam.name, case['kind'], what),
-                             'input': {'family': fam.name, 'kind': case['kind'], 'value': fam.impl_value(case)},
+                             'input': {'family': fam.name, 'kind': case['kind'],
+                                       'value': case['raw'] if 'raw' in case else fam.impl_value(case)},
                              'impl': impl, 'model_expr': term[:2000]})
     return cases, len(pairs), nontrivial, mism, viol
 
@@ -275,10 +284,13 @@ def run(ctx):
         '(C07_flowspec_operators_roundtrip_partial) and the rule length prefix at every body length 1..4095, both '
         'forms (C07_flowspec_length_prefix_roundtrip/_form/_out_of_range, C07_flowspec_rule_framed); prefix '
         'components, the component loop and the attribute framing have no theorem',
-        'labeled unicast / IPv6 flowspec MP_UNREACH and add-path variants: not modelled'],
+        'labeled unicast / IPv6 flowspec MP_UNREACH and add-path variants: not modelled',
+        'evpn route type 5 (IP prefix, outside C07): the decoder is modelled and compared on hand-made octets, '
+        'no theorem; its construct (ESI packed as a float) is not modelled'],
         'proved_families': ['ipv6_unicast (reach+unreach)', 'vpnv4/vpnv6 (reach+unreach)',
                             'labeled_unicast_v4/v6 (reach)', 'label stacks', 'route distinguishers',
-                            'flowspec operator lists (partial)', 'flowspec rule length prefix (1..4095 octets, both forms)'],
+                            'flowspec operator lists (partial)', 'flowspec rule length prefix (1..4095 octets, both forms)',
+                            'evpn route types 1-4, ESI types 0-5, MAC text, label stacks, (25,70) reach+unreach'],
         'patches_assumed_applied': ['build/proposed/c07-1-construct-prefix-v6.diff',
                                     'build/proposed/c07-2-construct-prefix-v4-zero.diff',
                                     'build/proposed/c07-3-evpn-esi-type3-width.diff (optional: otherwise a known finding)']}
